@@ -127,5 +127,9 @@ func (*Service) processorToConfig(p *processor.Instance) config.Processor {
 		Plugin:   p.Plugin,
 		Settings: p.Config.Settings,
 		Workers:  p.Config.Workers,
+		// Without the condition an exported processor never equals the
+		// configuration it was imported from: every plan listed a
+		// "condition" change for it and every import rewrote it.
+		Condition: p.Condition,
 	}
 }
